@@ -10,9 +10,14 @@ CFG = dict(
               "interleaving_irrelevant", "interleaving_irrelevant_pair", "sequential_schedule_is_interleaving",
               "modify_parallel_eq_sequential_ModifyFloat3", "modify_parallel_eq_sequential_ModifyFloat2", "modify_parallel_eq_sequential_ModifyFloat1",
               "scan_multiset_ScanFloat3", "scan_multiset_ScanFloat2", "scan_multiset_ScanFloat1",
-              "scan_multiset_ScanPrimitives_Triangle", "scan_multiset_ScanPrimitives_Point", "scan_multiset_ScanPrimitives_LineStrip"],
+              "scan_multiset_ScanPrimitives_Triangle", "scan_multiset_ScanPrimitives_Point", "scan_multiset_ScanPrimitives_LineStrip",
+              "blocks_disjoint_AddField", "blocks_disjoint_AddFieldParallel", "blocks_disjoint_AddFieldParallel2",
+              "chunks_enumerated", "index_injective", "block_workers_agree", "append_perm_tris", "merge_keeps_all_tris"],
     streams=[dict(name="c10", n=dict(quick=40, thorough=0)),
              dict(name="c10m", n=dict(quick=6, thorough=40), timeout=dict(quick=600, thorough=3600))],
+    extras=[dict(name="race-detector (go build -race; stream c10r; GOMAXPROCS 1,2,16)",
+                 cmd=["bash", "harness/race_c10.sh", "{work}", "{seed}", "{tier}"],
+                 tiers=["quick", "thorough"], timeout=900, kind="data-race-report")],
     trusted=T_COMMON + ["engine F extractor /verif/go/facts/c10.go (fails on any shape it does not understand)"],
     residue=[],
     assumptions=[],
